@@ -264,7 +264,8 @@ def binNorm (s : Spectrum) (c : List Rat) (given : Option Rat) : Rat :=
     | _, _ => 0
 
 /-- `Spectrum.bin(centres, interp_method, ends, preserve_power, fill_value)` in the spectrum's own unit.
-`pp = none`: preserve_power=False; `pp = some given`: normalise by `binNorm s c given / Σ bins` -/
+`pp = none`: preserve_power=False; `pp = some given`: rescale by `binNorm s c given / Σ bins` when the code's guard
+(`Gen.binRescaleGuard`, total ≠ 0) holds, otherwise the raw bins are returned unchanged (translated guard and factor) -/
 def bin (s : Spectrum) (simps symmetric : Bool) (fillL fillR : Rat) (pp : Option (Option Rat)) (c : List Rat)
     (intC : Bool := false) : Except Err (List Rat) :=
   match binRaw s simps symmetric fillL fillR c intC with
@@ -272,6 +273,8 @@ def bin (s : Spectrum) (simps symmetric : Bool) (fillL fillR : Rat) (pp : Option
   | .ok bins =>
     match pp with
     | none => .ok bins
-    | some given => .ok (bins.map (· * (binNorm s c given / sumL bins)))
+    | some given =>
+      if Gen.binRescaleGuard (sumL bins) then .ok (bins.map (· * Gen.binRescaleFactor (binNorm s c given) (sumL bins)))
+      else .ok bins
 
 end Lentil.Spec
